@@ -5,9 +5,12 @@ package cb
 
 import (
 	"bufio"
+	"context"
 	"encoding/json"
 	"fmt"
+	"io"
 	"math/rand"
+	"net/url"
 	"os"
 	"sync"
 	"sync/atomic"
@@ -139,9 +142,19 @@ type flight struct {
 	started chan struct{} // closed when f runs
 	outcome chan bool     // driver sends the outcome
 	done    chan error    // Call returned
+	fail    error         // what f returns when it is told to fail
 }
 
 var errScripted = fmt.Errorf("scripted failure")
+
+// failures: a failed call is a failed call, whatever its error says (a cancelled or timed-out request to the directory
+// is a failure of that call like any other)
+var failures = []error{errScripted, context.Canceled, context.DeadlineExceeded, io.EOF, io.ErrUnexpectedEOF,
+	&url.Error{Op: "Get", URL: "https://directory.test/groups", Err: context.Canceled},
+	fmt.Errorf("listing members: %w", context.Canceled), errScripted}
+var nfail int64
+
+func nextFailure() error { return failures[int(atomic.AddInt64(&nfail, 1))%len(failures)] }
 
 // Replay runs one behaviour; every Call is a goroutine whose f reports "started"
 // and blocks until the driver releases it with the dictated outcome.
@@ -154,7 +167,7 @@ func Replay(base int, evs []Ev) ([]Line, error) {
 		ln := Line{Ev: e.Op, Case: base + i + 1, C: e.C, Ok: e.Ok}
 		switch e.Op {
 		case "begin":
-			f := &flight{started: make(chan struct{}), outcome: make(chan bool, 1), done: make(chan error, 1)}
+			f := &flight{started: make(chan struct{}), outcome: make(chan bool, 1), done: make(chan error, 1), fail: nextFailure()}
 			fl[e.C] = f
 			go func() {
 				_, err := r.b.Call(func() (interface{}, error) {
@@ -162,7 +175,7 @@ func Replay(base int, evs []Ev) ([]Line, error) {
 					if <-f.outcome {
 						return "v", nil
 					}
-					return nil, errScripted
+					return nil, f.fail
 				})
 				f.done <- err
 			}()
@@ -197,7 +210,7 @@ func Replay(base int, evs []Ev) ([]Line, error) {
 				switch {
 				case e.Ok && err == nil:
 					ln.Res = "ok"
-				case !e.Ok && err == errScripted:
+				case !e.Ok && err == f.fail:
 					ln.Res = "fail"
 				default:
 					ln.Res = fmt.Sprintf("returned:%v", err)
